@@ -20,6 +20,8 @@ LE_TYPES = {
     "Enum_and_2": Literal[Col.R, 2], "Enum_and_x": Literal[Col.R, "x"], "Enum_both": Literal[Col.R, Col.G, 1], "StrEnum_and_b": Literal[SCol.A, "b"],
     "IntEnum_big": Literal[Level.HIGH, 1, 5, 6, 7, "s"], "Enum_big": Literal[Col.G, Col.B, 1, 3, 4, 5], "two_enums": Literal[Level.LOW, Col.G, "q"],
     "IntEnum_only": Literal[Level.NONE, Level.HIGH], "Enum_bytes": Literal[Col.R, b"ab", 2],
+    # no enum at all: both members of a bool/int look-alike pair in a literal that is large enough for the set branch
+    "big_0_False": Literal[0, False, "a", "b", "c"], "big_1_True": Literal[1, True, 2, 3, 4], "big_all": Literal[0, 1, False, True, "x"], "small_0_False": Literal[0, False],
 }
 LE_RS = six_retorts()
 LE_LD = {(n, k): r.get_loader(t) for n, t in LE_TYPES.items() for k, r in LE_RS.items()}
@@ -76,9 +78,9 @@ def le_strict_lax(name, di):
 '''
 
 NAMES = ["IntEnum_and_1", "IntEnum_and_5", "IntEnum_and_0_True", "Enum_and_2", "Enum_and_x", "Enum_both", "StrEnum_and_b", "IntEnum_big", "Enum_big", "two_enums",
-         "IntEnum_only", "Enum_bytes"]
+         "IntEnum_only", "Enum_bytes", "big_0_False", "big_1_True", "big_all", "small_0_False"]
 NCASES = {"IntEnum_and_1": 2, "IntEnum_and_5": 2, "IntEnum_and_0_True": 3, "Enum_and_2": 2, "Enum_and_x": 2, "Enum_both": 3, "StrEnum_and_b": 2, "IntEnum_big": 6, "Enum_big": 6,
-          "two_enums": 3, "IntEnum_only": 2, "Enum_bytes": 3}
+          "two_enums": 3, "IntEnum_only": 2, "Enum_bytes": 3, "big_0_False": 5, "big_1_True": 5, "big_all": 5, "small_0_False": 2}
 
 
 def litenum_module(prop: str, tier: str) -> Module:
